@@ -30,15 +30,49 @@ def _has_quant(t):
     return False
 
 
+_SK = [0]
+
+
+def _inst(q):
+    vs = []
+    for i in range(q.num_vars()):
+        _SK[0] += 1
+        vs.append(z3.Const(f"sk!{q.var_name(i)}!{_SK[0]}", q.var_sort(i)))
+    return z3.substitute_vars(q.body(), *reversed(vs))
+
+
+def _pos(h):
+    """a hypothesis with its outer existentials replaced by fresh constants (satisfiability-preserving)"""
+    if z3.is_quantifier(h) and not h.is_forall() and not h.is_lambda():
+        return _pos(_inst(h))
+    if z3.is_and(h):
+        return z3.And([_pos(c) for c in h.children()])
+    if z3.is_not(h):
+        return _neg(h.arg(0))
+    return h
+
+
+def _neg(g):
+    """the negation of a goal with its outer universals replaced by fresh constants, so that the terms under them are
+    ground (the string-function facts and spec-function unfoldings are instantiated at ground terms)"""
+    if z3.is_quantifier(g) and g.is_forall():
+        return _neg(_inst(g))
+    if z3.is_implies(g):
+        return z3.And(_pos(g.arg(0)), _neg(g.arg(1)))
+    if z3.is_and(g) and any(z3.is_quantifier(c) and c.is_forall() for c in g.children()):
+        return z3.Or([_neg(c) for c in g.children()])
+    return z3.Not(g)
+
+
 def build_query(ob, qf_only=False, lite=False):
     """SMT-LIB text of hyps ∧ ¬goal (cover: hyps only), with string-UF facts instantiated at ground terms.
     lite: without those facts -- fewer hypotheses, so an `unsat` of the lite text is still a proof (its `sat` is not
     a counterexample and is ignored)."""
     s = z3.Solver()
-    terms = [h for h in ob.hyps if not (qf_only and _has_quant(h))]
+    terms = [_pos(h) for h in ob.hyps if not (qf_only and _has_quant(h))]
     neg = None
     if not ob.expect_sat:
-        neg = z3.Not(ob.goal)
+        neg = _neg(ob.goal)
         terms.append(neg)
     from .contracts_rt import unfold_rec_apps
     unf = unfold_rec_apps(terms, reveals=getattr(ob, 'reveals', ()))
